@@ -213,3 +213,13 @@ def check(P, rep):
                       'every initial set that is iterated installs %s before construction can succeed' % tagp(e), entry_id(g))
     else:
         rep.floor('gateway constructor', 0, 1)
+    # who-may-rotate: a signer set is installed only by rotate_signers (under the proof checked above) and by the constructor; a rotation
+    # helper exported as an entry point, or another entry that writes the rotation keys, installs sets nobody authorised
+    for cn_, en_ in P.all_entries():
+        if cn_ != CN or en_ in ('rotate_signers', '__constructor'):
+            continue
+        g2 = P.graph(cn_, en_)
+        for e in rotation_effects(g2):
+            if not within_entry(g2, e, ['rotate_signers']):
+                rep.bad('C03.R3', '%s:rotates-outside-rotate_signers' % en_, 'signer sets are installed only by rotate_signers (behind its proof) and the constructor',
+                        esite(g2, e), e.describe()[:200])
